@@ -18,6 +18,13 @@
 //!   `run n w`               run `n` backtests concurrently (backtest `b` uses strat `b mod #strats`)
 //!                           through the real `run_backtests` on a tokio multi-thread runtime with
 //!                           `w` workers (`w = 0`: current-thread), then each one alone
+//!   `longdata n k rp ro pm tm`  a LONG dataset given by a FORMULA instead of a list (harness and Lean driver
+//!                           compute the identical sequence): `n` stream events over `k` instruments; position
+//!                           `pos` (0-based) is a `Reconnecting` marker iff `rp > 0` and `pos % rp == ro`,
+//!                           otherwise the trade Item with id `pos`, instrument `(pos + pos/3) % k`, price
+//!                           `50 + 50*instrument + pos % pm`, side Sell iff `pos % 3 == 1` (else Buy) and
+//!                           exchange time `1 + pos*tm` ms. `strat` / `run` are used as with `data`; `run` then
+//!                           prints DIGESTS (`lseen` / `linst` / `lreqs`) instead of id lists
 //!
 //! Observations of `run` (per backtest `b`):
 //!   `seen b ids...`         market stream events processed by b's engine, in order: the id of every Item
@@ -27,6 +34,18 @@
 //!   `reqs b t:i:s:q@p ...`  order requests b's strategy issued (with the price it read)
 //!   `own b 1`               b's summary equals a synchronous replay of b's own observed feed through
 //!                           a fresh real Engine (the summary is a function of that engine's feed)
+//!   after `longdata` the first three lines are replaced by
+//!   `lseen b n=.. items=.. R=.. order=.. dups=.. skipped=.. last=.. h=..`
+//!                           digest of the market stream b's engine processed: number of stream events, of
+//!                           Items, of markers; `order` = `ok` or the first index at which the processed
+//!                           sequence differs from the dataset (also when it merely ends early); a cursor walks
+//!                           the dataset: an Item beyond the cursor adds the positions jumped over to `skipped`,
+//!                           an Item behind it (a repeat / reordering) or a marker where the dataset has none
+//!                           adds 1 to `dups`; positions never reached are added to `skipped` at the end;
+//!                           `last` = last dataset position reached; `h` = rolling hash of the CONTENT of every
+//!                           event processed (id, instrument, price, side, exchange time; 0 for a marker)
+//!   `linst b j n=.. h=.. px=..`   per instrument: number of Items, rolling hash of their ids, last price held
+//!   `lreqs b t:i:s:q@p ...` the requests of b's strategy (as `reqs`; the spec states them for long datasets)
 //!   `alone b 1`             seen/inst/reqs AND the summary (realised PnL per instrument, final balances)
 //!                           and final positions of the concurrent run equal those of b run alone on
 //!                           the same kind of runtime (`0` otherwise, with a `# differs` note)
@@ -110,6 +129,28 @@ struct RecGlobal {
     /// raw account events, kept so that the feed can be replayed
     account: Vec<AccountEvent>,
     acc_notices: usize,
+    /// rolling hash of the content of every market stream event processed (`lseen .. h=`)
+    h: u64,
+}
+
+/// rolling hash shared with the Lean driver (`Backtest.mix`): all values stay below 2^53
+const HASH_MOD: u64 = 4_294_967_291;
+fn mix(h: u64, x: u64) -> u64 {
+    (h * 1_000_003 + x + 1) % HASH_MOD
+}
+
+/// content of one Item: id (+1, a marker mixes 0), instrument, price, side, exchange time in ms
+fn mix_item(h: u64, event: &MarketEvent<InstrumentIndex, DataKind>) -> u64 {
+    let (price, sell) = match &event.kind {
+        DataKind::Trade(t) => (t.price as u64, (t.side == Side::Sell) as u64),
+        _ => panic!("datasets hold trades only"),
+    };
+    let h = mix(h, event_id(event) as u64 + 1);
+    let h = mix(h, event.instrument.index() as u64);
+    let h = mix(h, price);
+    let h = mix(h, sell);
+    // exchange time in ms relative to `time_ms(0)`
+    mix(h, (event.time_exchange - time_ms(0)).num_milliseconds() as u64)
 }
 
 fn event_id(event: &MarketEvent<InstrumentIndex, DataKind>) -> u32 {
@@ -124,6 +165,7 @@ impl<'a> Processor<&'a MarketEvent<InstrumentIndex, DataKind>> for RecGlobal {
     fn process(&mut self, event: &'a MarketEvent<InstrumentIndex, DataKind>) {
         self.log.push(Rec::M(event_id(event)));
         self.n_mkt += 1;
+        self.h = mix_item(self.h, event);
     }
 }
 
@@ -227,6 +269,9 @@ struct Sink {
     reqs: Vec<String>,
     positions: Vec<String>,
     balances: Vec<String>,
+    /// content hash of the market stream (`RecGlobal::h`) and last price per instrument
+    h: u64,
+    px: Vec<Option<Decimal>>,
 }
 
 /// Decisions depend only on the number of market events processed and on market prices: never on
@@ -332,6 +377,8 @@ impl AlgoStrategy for PlanStrategy {
         }
         sink.positions = snapshot_positions(state);
         sink.balances = snapshot_balances(state);
+        sink.h = state.global.h;
+        sink.px = state.instruments.0.values().map(|s| s.data.price).collect();
         (std::iter::empty(), opens)
     }
 }
@@ -366,6 +413,7 @@ impl<Clock, Txs, Risk> OnDisconnectStrategy<Clock, State, Txs, Risk> for PlanStr
             == barter::engine::state::connectivity::Health::Reconnecting;
         if market {
             engine.state.global.log.push(Rec::R);
+            engine.state.global.h = mix(engine.state.global.h, 0);
         } else {
             engine.state.global.log.push(Rec::A("acc-reconnecting".into()));
             engine.state.global.acc_notices += 1;
@@ -388,6 +436,8 @@ struct Setup {
     latency_ms: u64,
     /// `data_slow`: tokio-time gap before every event of the stream
     gap_ms: Option<u64>,
+    /// `longdata`: observations of `run` are digests
+    long: bool,
 }
 
 /// The data source handed to `backtest()`: the repo's `MarketDataInMemory` (clock from its `new`,
@@ -639,6 +689,86 @@ fn account_tags(log: &[Rec]) -> Vec<String> {
         .collect()
 }
 
+/// the market stream events of a log (Items and markers), in order
+fn market_recs(log: &[Rec]) -> Vec<Rec> {
+    log.iter().filter(|r| !matches!(r, Rec::A(_))).cloned().collect()
+}
+
+/// One event of a `longdata n k rp ro pm tm` dataset: a function of its position alone (the Lean driver's
+/// `Backtest.genEv` is the same formula).
+fn long_event(pos: usize, k: usize, rp: usize, ro: usize, pm: usize, tm: usize) -> MarketStreamEvent<InstrumentIndex, DataKind> {
+    if rp > 0 && pos % rp == ro {
+        return MarketStreamEvent::Reconnecting(EXCHANGE);
+    }
+    let inst = (pos + pos / 3) % k;
+    let price = 50 + 50 * inst + pos % pm;
+    let te = time_ms((1 + pos * tm) as i64);
+    MarketStreamEvent::Item(MarketEvent {
+        time_exchange: te,
+        time_received: te,
+        exchange: EXCHANGE,
+        instrument: InstrumentIndex(inst),
+        kind: DataKind::Trade(PublicTrade {
+            id: pos.to_string(),
+            price: price as f64,
+            amount: 1.0,
+            side: if pos % 3 == 1 { Side::Sell } else { Side::Buy },
+        }),
+    })
+}
+
+/// `lseen` digest of the market stream an engine processed, relative to the dataset (see the header).
+fn long_seen_digest(events: &[MarketStreamEvent<InstrumentIndex, DataKind>], log: &[Rec], h: u64) -> String {
+    let n = events.len();
+    let is_marker = |pos: usize| pos < n && matches!(events[pos], MarketStreamEvent::Reconnecting(_));
+    let (mut cnt, mut items, mut markers) = (0usize, 0usize, 0usize);
+    let (mut expect, mut dups, mut skipped) = (0usize, 0usize, 0usize);
+    let mut first_bad: Option<usize> = None;
+    for rec in log {
+        let tok: Option<usize> = match rec {
+            Rec::M(id) => Some(*id as usize),
+            Rec::R => None,
+            Rec::A(_) => continue,
+        };
+        // the dataset's element at this index of the stream
+        let same = cnt < n && (if is_marker(cnt) { tok.is_none() } else { tok == Some(cnt) });
+        if !same && first_bad.is_none() {
+            first_bad = Some(cnt);
+        }
+        match tok {
+            Some(id) => {
+                items += 1;
+                if id >= expect {
+                    skipped += id - expect;
+                    expect = id + 1;
+                } else {
+                    dups += 1;
+                }
+            }
+            None => {
+                markers += 1;
+                if is_marker(expect) {
+                    expect += 1;
+                } else {
+                    dups += 1;
+                }
+            }
+        }
+        cnt += 1;
+    }
+    if first_bad.is_none() && cnt < n {
+        first_bad = Some(cnt);
+    }
+    let last = if expect == 0 { "-".to_string() } else { (expect - 1).to_string() };
+    if expect < n {
+        skipped += n - expect;
+    }
+    format!(
+        "n={cnt} items={items} R={markers} order={} dups={dups} skipped={skipped} last={last} h={h}",
+        first_bad.map(|i| i.to_string()).unwrap_or_else(|| "ok".into())
+    )
+}
+
 struct RunResult {
     sinks: Vec<Sink>,
     summaries: Vec<String>,
@@ -755,6 +885,24 @@ fn run() {
                         plans: vec![],
                         latency_ms,
                         gap_ms,
+                        long: false,
+                    });
+                }
+                "longdata" => {
+                    assert_eq!(op.len(), 7, "longdata n k rp ro pm tm");
+                    let v: Vec<usize> = op[1..].iter().map(|t| t.parse().expect("number")).collect();
+                    let (n, k, rp, ro, pm, tm) = (v[0], v[1], v[2], v[3], v[4], v[5]);
+                    assert!(n >= 1 && k >= 1 && pm >= 1 && (rp == 0 || ro < rp), "longdata parameters");
+                    let events: Vec<_> = (0..n).map(|pos| long_event(pos, k, rp, ro, pm, tm)).collect();
+                    lines.push(format!("longdata {} {}", k, events.len()));
+                    setup = Some(Setup {
+                        instruments: build_instruments(k),
+                        n_events: events.len(),
+                        events: Arc::new(events),
+                        plans: vec![],
+                        latency_ms: 0,
+                        gap_ms: None,
+                        long: true,
                     });
                 }
                 "strat" => {
@@ -800,12 +948,25 @@ fn run() {
                     let conc = run_concurrent(s, &bs, w);
                     for b in 0..n {
                         let sink = &conc.sinks[b];
-                        let seen = market_ids(&sink.log);
-                        lines.push(format!("seen {b} {}", seen.join(" ")));
-                        for (j, v) in sink.inst.iter().enumerate() {
-                            lines.push(format!("inst {b} {j} {}", ids(v)));
+                        let seen = market_recs(&sink.log);
+                        if s.long {
+                            // a long dataset: digests instead of id lists
+                            lines.push(format!("lseen {b} {}", long_seen_digest(&s.events, &sink.log, sink.h)));
+                            // an engine that never consulted its strategy has an empty sink: one line per instrument anyway
+                            for j in 0..s.instruments.instruments().len() {
+                                let v: &[u32] = sink.inst.get(j).map(|v| v.as_slice()).unwrap_or(&[]);
+                                let h = v.iter().fold(0u64, |h, id| mix(h, *id as u64));
+                                let px = sink.px.get(j).copied().flatten();
+                                lines.push(format!("linst {b} {j} n={} h={h} px={}", v.len(), fmt_opt_dec(px)));
+                            }
+                            lines.push(format!("lreqs {b} {}", sink.reqs.join(" ")));
+                        } else {
+                            lines.push(format!("seen {b} {}", market_ids(&sink.log).join(" ")));
+                            for (j, v) in sink.inst.iter().enumerate() {
+                                lines.push(format!("inst {b} {j} {}", ids(v)));
+                            }
+                            lines.push(format!("reqs {b} {}", sink.reqs.join(" ")));
                         }
-                        lines.push(format!("reqs {b} {}", sink.reqs.join(" ")));
                         // summary is a function of this engine's own feed
                         let (rs, rpos, rbal) = replay_feed(s, sink);
                         let own = rs == conc.summaries[b] && rpos == sink.positions && rbal == sink.balances;
@@ -821,21 +982,37 @@ fn run() {
                         let mut all_same = true;
                         // a difference is EXPLAINED by the known finding (account events that reach the feed after
                         // Shutdown are dropped) iff the market side is identical and the account events one run
-                        // processed are a prefix of those the other processed; anything else is printed as `X`
+                        // processed are among those the other processed; anything else is printed as `X`
                         let mut explained = true;
                         let mut last = None;
                         for shape in shapes {
                             let alone = run_concurrent(s, &[b], shape);
                             let a = &alone.sinks[0];
-                            let same_seen = market_ids(&a.log) == seen && a.inst == sink.inst && a.reqs == sink.reqs;
+                            let same_seen = market_recs(&a.log) == seen && a.inst == sink.inst && a.reqs == sink.reqs && a.h == sink.h;
                             // fills / final positions / balances / realised PnL as the engine reports them
                             let same_sum = alone.summaries[0] == conc.summaries[b]
                                 && a.positions == sink.positions
                                 && a.balances == sink.balances;
                             if !(same_seen && same_sum) {
                                 let (x, y) = (account_tags(&sink.log), account_tags(&a.log));
-                                let prefix = x.len().min(y.len());
-                                if !same_seen || x[..prefix] != y[..prefix] {
+                                // several fills may be processed before Shutdown, and the order in which the responses
+                                // of one fill (order snapshot / balance / trade) reach the feed is the scheduler's (the
+                                // model's account forwarder delivers pending account events in ANY order): the account
+                                // events of the run that processed fewer must be AMONG those of the other run. (A plain
+                                // prefix test was flaky under load: [snap, bal] vs [snap, ord, bal, trade].) An account
+                                // event the other run never saw - e.g. a fill of another backtest's order - stays `X`
+                                let related = {
+                                    let (short, long) = if x.len() <= y.len() { (&x, &y) } else { (&y, &x) };
+                                    let mut rest: Vec<&String> = long.iter().collect();
+                                    short.iter().all(|t| match rest.iter().position(|u| *u == t) {
+                                        Some(i) => {
+                                            rest.swap_remove(i);
+                                            true
+                                        }
+                                        None => false,
+                                    })
+                                };
+                                if !same_seen || !related {
                                     explained = false;
                                 }
                             }
@@ -942,6 +1119,65 @@ fn gen_case(out: &mut Out, rng: &mut Rng, id: &str, len: usize, runs: &[(usize, 
     }
 }
 
+/// dataset lengths around and beyond powers of two and typical buffer / block sizes
+const LONG_LENS: [usize; 13] = [1, 2, 1023, 1024, 1025, 4095, 4097, 8191, 8192, 8193, 16385, 20000, 65537];
+
+/// A LONG dataset (`longdata`, formula-defined, digests observed): `n` stream events over 2-3 instruments,
+/// markers none / every 7th / 64th / 1000th / on the multiples of 4096 (position 0 included) / just before
+/// the multiples of 1024; 1-2 strategy parameterisations whose triggers sit on the first and last Item, in the
+/// middle and right around the block boundaries 1024 / 4096 / 8192 / 16384 / 65536, so that an event fed
+/// twice (or dropped) there shifts the Item count and with it the price the later requests read.
+fn gen_long_case(out: &mut Out, rng: &mut Rng, id: &str, n: usize, runs: &[(usize, usize)]) {
+    out.case(id);
+    let k = rng.range(2, 3) as usize;
+    let (rp, ro): (usize, usize) = if n <= 2 {
+        *rng.pick(&[(0, 0), (2, 1)])
+    } else {
+        match rng.below(6) {
+            0 => (0, 0),
+            1 => (7, rng.below(7) as usize),
+            2 => (64, rng.below(64) as usize),
+            3 => (1000, rng.below(1000) as usize),
+            4 => (4096, 0),
+            _ => (1024, 1023),
+        }
+    };
+    let pm = *rng.pick(&[7usize, 13, 97]);
+    let tm = *rng.pick(&[1usize, 3, 1000]);
+    out.line(format!("longdata {n} {k} {rp} {ro} {pm} {tm}"));
+    let items = (0..n).filter(|pos| !(rp > 0 && pos % rp == ro)).count() as i64;
+    let n_strats = rng.range(1, 2);
+    for s in 0..n_strats {
+        if s == 0 && n_strats == 2 && rng.chance(50) {
+            out.line("strat -");
+            continue;
+        }
+        let n_items = rng.range(3, 6);
+        let mut line = String::from("strat");
+        for _ in 0..n_items {
+            let near: Vec<i64> = [1024i64, 4096, 8192, 16384, 65536].iter().copied().filter(|b| *b < n as i64).collect();
+            // a few triggers lie beyond the last Item (never due)
+            let beyond = if rng.chance(10) { 5 } else { 0 };
+            let trigger = match rng.below(6) {
+                0 => 1,
+                1 => items,
+                2 => items / 2 + 1,
+                3 | 4 if !near.is_empty() => *rng.pick(&near) + rng.range(-2, 3),
+                _ => rng.range(1, items.max(1) + beyond),
+            }
+            .max(1);
+            let i = rng.below(k as u64);
+            let side = if rng.chance(70) { "B" } else { "S" };
+            let qty = if rng.chance(10) { 5000 } else { rng.range(1, 3) };
+            line.push_str(&format!(" {trigger}:{i}:{side}:{qty}"));
+        }
+        out.line(line);
+    }
+    for (m, w) in runs {
+        out.line(format!("run {m} {w}"));
+    }
+}
+
 fn generate(seed: u64, n_cases: usize, tier: &str) {
     let mut out = Out::new();
     let mut rng = Rng::new(seed);
@@ -990,6 +1226,28 @@ fn generate(seed: u64, n_cases: usize, tier: &str) {
             runs.push(if thorough && c % 4 == 0 { (32, 8) } else { (8, 4) });
         }
         gen_case(&mut out, &mut rng, &format!("r{}", c + 1), len, &runs, None);
+    }
+    // long datasets (own PRNG stream, so the cases above do not depend on them): every length of LONG_LENS in
+    // the thorough tier; 8193, 20000 and one more length in the quick tier. Each alone (`run 1 w`) and with
+    // 2-4 concurrent backtests over the same shared data, on a current-thread and on multi-thread runtimes
+    if n_cases > 0 {
+        let mut lrng = Rng::new(seed ^ 0x4c4f_4e47);
+        let lens: Vec<usize> = if thorough {
+            LONG_LENS.to_vec()
+        } else {
+            let extra = *lrng.pick(&[1usize, 2, 1023, 1024, 1025, 4095, 4097, 8191, 8192, 16385, 65537]);
+            vec![8193, 20000, extra]
+        };
+        for n in lens {
+            let mut runs = vec![
+                (1usize, *lrng.pick(&[0usize, 1, 4])),
+                (lrng.range(2, 4) as usize, *lrng.pick(&[1usize, 4, 8])),
+            ];
+            if thorough || lrng.chance(30) {
+                runs.push((lrng.range(2, 4) as usize, 0));
+            }
+            gen_long_case(&mut out, &mut lrng, &format!("L{n}"), n, &runs);
+        }
     }
     out.flush();
 }
